@@ -315,6 +315,8 @@ def c11(tier):
     P = core.load(tier=tier, extra_units=selftest.UNITS)
     selftest.run(P, C, ('sp',))
     sg.run_sign(P, C)
+    # the anchor `if (nH2 == 0) break`: convergence is declared only at an exact solve with nothing pending
+    sg.sg5(P, C)
     # the constrained set handed back to the solver is one job's list of clipped coordinates, not several jobs' concatenated
     mt.mt9(P, C)
     # anchored in modify_factor / recompute_factor: the factor-update path must not read moved or released CHOLMOD arrays
